@@ -256,7 +256,9 @@ fn get_swap_transactions<C: ContentAddrStore>(state: &UnsealedState<C>) -> Vec<T
             (!tx.outputs.is_empty()).then_some(())?; // ensure not empty
             state.coins.get_coin(tx.output_coinid(0))?; // ensure that first output is unspent
             let pool_key = canonical_pool_key(&tx.data)?; // ensure that data contains a pool key
-            state.pools.get(&pool_key)?; // ensure that pool key points to a valid pool
+            let pool_state = state.pools.get(&pool_key)?; // ensure that pool key points to a valid pool
+            // a pool with an empty side (everything withdrawn) has no price to swap at
+            (pool_state.lefts > 0 && pool_state.rights > 0).then_some(())?;
             (tx.outputs[0].denom == pool_key.left() || tx.outputs[0].denom == pool_key.right())
                 .then_some(())?; // ensure that the first output is either left or right
             Some(tx)
@@ -372,6 +374,10 @@ fn get_deposit_transactions<C: ContentAddrStore>(state: &UnsealedState<C>) -> Ve
         .filter_map(|tx| {
             (tx.kind == TxKind::LiqDeposit
                 && tx.outputs.len() >= 2
+                // a deposit brings both sides; one with an empty side would leave a pool that
+                // has liquidity but no price, and the next swap or deposit would divide by zero
+                && tx.outputs[0].value.0 > 0
+                && tx.outputs[1].value.0 > 0
                 && state.coins.get_coin(tx.output_coinid(0)).is_some()
                 && state.coins.get_coin(tx.output_coinid(1)).is_some())
             .then_some(())?;
